@@ -82,6 +82,10 @@ def gen_solver_spec(r, like=None, short=False):
                   "refineSolution": r.random() < 0.25}
     nops = r.randint(2, 4 if short else 6)
     ops = [r.choice(["I1", "I1", "I2", "I3", "S", "G", "G", "R"]) for _ in range(nops)]
+    if r.random() < 0.12 and any(o in ("G", "S") for o in ops):
+        # drop the solver after the last operation that handed out a Solution (the Solution is then read without its solver)
+        last = max(j for j, o in enumerate(ops) if o in ("G", "S"))
+        ops = ops[:last + 1] + ["D"]
     if params == "default":
         ops = [o for o in ops if o != "R"] or ["I1", "G"]
     if params == "default-steps":
@@ -119,8 +123,26 @@ def build(spec, shared=None):
     return {"problem": prob, "solver": sv, "held": [], "done": 0, "spec": spec}
 
 
+class _Gone:
+    """stands for a solver the caller has dropped: every later operation on it is a no-op returning nothing new"""
+    def DoGlobalIteration(self, k=1):
+        pass
+
+    def Solve(self):
+        return None
+
+    def GetResults(self):
+        return None
+
+    def DoLocalRefinement(self, k=1):
+        pass
+
+
 def do_op(st, op):
     sv = st["solver"]
+    if isinstance(sv, _Gone):
+        st["done"] += 1
+        return
     out = io.StringIO()
     with contextlib.redirect_stdout(out):
       try:
@@ -133,6 +155,12 @@ def do_op(st, op):
         elif op == "R":
             if sv.GetResults().numberOfGlobalTrials > 0:
                 sv.DoLocalRefinement(3)
+        elif op == "D":
+            # the caller drops the solver (it keeps only the Solutions it was handed); a garbage collection follows
+            import gc
+            st["solver"] = _Gone()
+            del sv
+            gc.collect()
       except Exception as e:      # noqa: BLE001 - part of the observable behaviour, compared with the solo run
         st.setdefault("raised", []).append([st["done"], type(e).__name__, str(e)[:80]])
     st["done"] += 1
@@ -140,7 +168,12 @@ def do_op(st, op):
 
 def observe(st):
     log = [(ph, tuple(oc.f2h(c) for c in pt), oc.f2h(v)) for ph, pt, v in oc.plog(st["problem"])]
-    snaps = [oc.solution_snapshot(s) for s in st["held"]]
+    snaps = []
+    for s_ in st["held"]:
+        try:
+            snaps.append(oc.solution_snapshot(s_))
+        except Exception as e:     # noqa: BLE001 - a Solution that can no longer be read is itself a finding
+            snaps.append({"unreadable": f"{type(e).__name__}: {e}"[:120]})
     ids = [next(i for i, t in enumerate(st["held"]) if t is s) for s in st["held"]]
     return {"log": log, "snaps": snaps, "same_object_as": ids, "raised": list(st.get("raised", []))}
 
@@ -151,7 +184,8 @@ def solo(spec):
     for op in spec["ops"]:
         do_op(st, op)
         rec.append(observe(st))
-    final = oc.solution_snapshot(st["solver"].GetResults())
+    res_ = st["solver"].GetResults()
+    final = None if res_ is None else oc.solution_snapshot(res_)
     return rec, final
 
 
@@ -184,7 +218,8 @@ def interleaved(case):
     for i, s in enumerate(states):
         if s is None:
             s = states[i] = build(specs[i], shared)
-        finals.append([s["done"], oc.solution_snapshot(s["solver"].GetResults())])
+        res_ = s["solver"].GetResults()
+        finals.append([s["done"], None if res_ is None else oc.solution_snapshot(res_)])
     return _norm([steps, finals])
 
 
@@ -196,6 +231,10 @@ def compare(case, inter, solos):
     for step, who, obs in steps:
         for i, done, ob in obs:
             want = solos[i][0][done]
+            bad_ = [j for j, sn in enumerate(ob["snaps"]) if isinstance(sn, dict) and "unreadable" in sn]
+            if bad_:
+                viol.append({"what": "a Solution handed out earlier can no longer be read", "step": step, "moved": who, "solver": i,
+                             "solution_index": bad_[0], "error": ob["snaps"][bad_[0]]["unreadable"]})
             if i != who and ob["snaps"]:
                 reread_after_other += 1
             if ob["log"] != want["log"]:
@@ -279,7 +318,11 @@ def gen_case(r, short=False):
     r.shuffle(order)
     case = {"solvers": specs, "schedule": sched, "construct": r.choice(["upfront", "lazy"]), "order": order}
     shared_state = any(not isinstance(s_["params"], dict) for s_ in specs)
-    if not short and (twins or big or (shared_state and r.random() < 0.2) or r.random() < 0.04):
+    refines = sum(1 for s_ in specs if "R" in s_["ops"] or (isinstance(s_["params"], dict) and s_["params"]["refineSolution"]
+                                                           and "S" in s_["ops"]))
+    if not short and refines >= 2 and r.random() < 0.5:
+        shared_state = True         # two local refinements in one process: references from fresh interpreters
+    if not short and (twins or big or refines >= 2 and shared_state or (shared_state and r.random() < 0.2) or r.random() < 0.04):
         case["fresh"] = True        # references from fresh interpreters
     return case
 
